@@ -10,7 +10,8 @@
 // (b) whole programs through the Node API on NN, EE and split NE / EN (functions::copy between the
 //     devices): same accept/reject at the same instruction, same static shapes, forward values,
 //     parameter gradients of backward(y*w), parameters after 2 steps of SGD(0.01) and of Adam(0.01)
-//     (a tensor that is not finite on the reference run -- the steps left the domain -- is skipped).
+//     (a tensor that is not finite or above 1e6 on the reference run -- the steps left the domain -- is skipped
+//     and COUNTED: extra.skipped_*; progcheck.py bounds the skipped share).
 //     Rounding differences of (a) propagate through <= 14 well-conditioned operations (the generator
 //     bounds magnitudes and keeps away from singularities): tolerance 1e-4 * max(1, max|tensor|) (largest deviation observed on 15000 programs: 6.2e-6);
 //     programs made only of bit-exact functions: forward values bit-for-bit.
@@ -81,7 +82,10 @@ static bool cmp_tensors(const string &what, const vector<FV> &ref, const vector<
   if (ref.size() != oth.size()) { why = what + ": tensor count " + S(ref.size()) + " vs " + S(oth.size()); return false; }
   for (size_t t = 0; t < ref.size(); ++t) {
     if (ref[t].size() != oth[t].size()) { why = what + ": size of tensor " + S(t); return false; }
-    if (!all_finite(ref[t]) || maxabs(ref[t]) > 1e6) { st.extra["nonfinite_tensors_skipped"]++; continue; }
+    // NOT COMPARED (counted; progcheck.py bounds their share of whole_tensors_compared + skipped, tag prog-floor)
+    if (!all_finite(ref[t])) { st.extra["skipped_nonfinite_reference_tensors"]++; continue; }
+    if (maxabs(ref[t]) > 1e6) { st.extra["skipped_reference_above_1e6_tensors"]++; continue; }
+    st.extra["whole_tensors_compared"]++;
     double mx = std::max(1.0, (double)maxabs(ref[t])), gth = 0;
     if (mask_grads) gth = 1e-3 * std::max(1.0, (double)maxabs((*mask_grads)[t]));
     for (size_t i = 0; i < ref[t].size(); ++i) {
@@ -93,7 +97,10 @@ static bool cmp_tensors(const string &what, const vector<FV> &ref, const vector<
       double &m = st.maxdev["whole_" + what.substr(0, what.find(' '))]; m = std::max(m, dev);
       if (!(dev <= TOL_WHOLE) && noise && t < noise->size() && (*noise)[t].size() == ref[t].size()) {
         double nd = 0; for (size_t q = 0; q < ref[t].size(); ++q) nd = std::max(nd, std::fabs((double)ref[t][q] - (double)(*noise)[t][q]) / mx);
-        if (dev <= 16 * nd || !std::isfinite(nd)) { st.extra["illconditioned_tensors_widened"]++; continue; }
+        // a non-finite noise run (the 2^-21 perturbation left the domain) says nothing about the size of the
+        // deviation: the element is accepted but counted as skipped, and the count is bounded by progcheck.py
+        if (!std::isfinite(nd)) { st.extra["skipped_nonfinite_noise_elements"]++; continue; }
+        if (dev <= 16 * nd) { st.extra["illconditioned_tensors_widened"]++; continue; }
       }
       if (!(dev <= TOL_WHOLE)) { why = what + ": tensor " + S(t) + " elem " + S(i) + ": " + fmt(a) + " vs " + fmt(b) + " (rel " + fmt(dev) + ")"; return false; }
     }
@@ -138,6 +145,7 @@ static Verdict check_backend(const Program &P, Stats &st) {
         for (size_t j = 0; j < a.size(); ++j) {
           if (std::isnan(a[j]) && std::isnan(b[j])) continue;
           if (exact) { if (bits(a[j]) != bits(b[j])) return Verdict::F("op-bits instr " + S(i) + " `" + print_instr(I) + "` elem " + S(j) + ": naive=" + fmt(a[j]) + " eigen=" + fmt(b[j])); continue; }
+          if (a[j] == b[j]) { st.maxdev[string("op_") + OP_NAMES[I.code]]; continue; }   // equal, incl. two infinities of the same sign (inf - inf is NaN)
           double dev = std::fabs((double)a[j] - (double)b[j]) / (EPS32 * scale);
           double &m = st.maxdev[string("op_") + OP_NAMES[I.code]]; m = std::max(m, dev);
           if (!(dev <= K)) return Verdict::F("op-value instr " + S(i) + " `" + print_instr(I) + "` elem " + S(j) + ": naive=" + fmt(a[j]) + " eigen=" + fmt(b[j]) + " (" + fmt(dev) + " units of 2^-24*scale, allowed " + fmt(K) + ")");
@@ -159,7 +167,7 @@ static Verdict check_backend(const Program &P, Stats &st) {
     for (size_t k = 0; k < ref.shapes.size(); ++k) if (ref.shapes[k] != o.shapes[k]) return Verdict::F("static-shape " + tag + "value " + S(k));
     if (ref.fail_at >= 0) continue;
     if (o.eval_err != ref.eval_err) return Verdict::F("eval-differs " + tag + (ref.eval_err ? ref.msg : o.msg));
-    if (ref.eval_err || !all_finite(ref.y)) continue;
+    if (ref.eval_err || !all_finite(ref.y)) { st.extra[ref.eval_err ? "whole_reference_eval_error" : "skipped_nonfinite_reference_programs"]++; continue; }
     string why;
     if (!cmp_tensors("value " + tag, {ref.y}, {o.y}, exact, st, why, nullptr, &nzy)) return Verdict::F("whole-" + why);
     if (!cmp_tensors("grad " + tag, ref.grads, o.grads, false, st, why, nullptr, &nz.grads)) return Verdict::F("whole-" + why);
